@@ -25,16 +25,17 @@ def _post(ctx):
 CFG = dict(
     prop="C19", level="proof", harness="c19",
     props_files=["theories/Props/C19.v"], corr_file="theories/Corr/C19.v", corr_module="Corr.C19",
-    groups={"pipe": True, "gi": False, "git": False}, show_fn={"pipe": "model_pipe", "gi": "model_gi", "git": "model_git"},
+    groups={"pipe": True, "lib": True, "gi": False, "git": False}, show_fn={"pipe": "model_pipe", "lib": "model_lib", "gi": "model_gi", "git": "model_git"},
     pre=_pre, post=_post, shard=150,
     design_ref="DESIGN.md 6.19",
     technique="Coq proof (set characterisation of the discovery pipeline over abstract trees; gitignore specification with the "
-              "directory-pattern law) + correspondence of the specification with the ignore crate and with git check-ignore, and of the pipeline with the real binary",
+              "directory-pattern law) + correspondence of the specification with the ignore crate and with git check-ignore, and of the pipeline with the real binary "
+              "and with the library entry point Linter::lint_paths (extension list through every public configuration route)",
     level_text="C19_set / C19_once / C19_written are closed Coq theorems for every tree, extension list, pattern list and argument list: "
                "the model of paths_from_path + lint_paths + IgnoreFile::is_ignored + run_fix's write loop lints exactly the files under "
                "the arguments with a configured extension plus explicit files, minus those the gitignore specification ignores, each once, "
                "and fix writes only those. C19_dir_pattern / C19_dir_line are the README law for 'd/' (any preceding lines, no negation line after it), C19_level: nothing re-includes below an ignored directory. The specification is validated against the ignore "
-               "crate and git itself, and the pipeline model against the sqruff binary built from the tree on every run.",
+               "crate and git itself, and the pipeline model against the sqruff binary built from the tree and against Linter::lint_paths called in-process on every run.",
     level_note="Trusted: Coq kernel; hand-written model (tie = sampled correspondence); filesystem, walkdir, the ignore/globset crates and "
                "the JSON printer are oracles; gitignore character classes, escapes and non-ASCII names are outside the modelled subset.",
     rule="(git) every fourth of the (gi) ignore files in a scratch repository: Gallina gi_ignored vs `git check-ignore --no-index` per path. (gi) random ignore files (1-5 lines from the README forms: blank, comment, literal, glob *, ?, **, leading/inner/trailing "
@@ -44,7 +45,12 @@ CFG = dict(
          "arguments (none, '.', 1-3 files/directories spelled relative, ./relative, absolute or with a trailing slash, duplicates and overlaps): the real "
          "binary's `lint -f json` keys with multiplicities and the files rewritten by `fix --force` vs the Gallina pipeline, and "
          "directly vs the property text with the ignore crate as gitignore reference. non-trivial = some candidate file is ignored "
-         "or the arguments repeat/overlap (pipe), some path is ignored (gi, git)",
+         "or the arguments repeat/overlap (pipe), some path is ignored (gi, git). (lib) the same trees x ignore lines (as the caller's ignorer closure, "
+         "gitignore walk over the ignore crate) x absolute path arguments x extension lists of 0-3 entries in lower / upper / mixed letter case (incl. entries "
+         "differing only in case) x the public routes by which the list reaches the configuration {config text, config map to FluffConfig::new, "
+         "FluffConfig::with_sql_file_exts, with_sql_file_exts over a configured list, Linter::config_mut on an existing linter}: the files in the "
+         "LintingResult of Linter::lint_paths(fix=false) and of a second call with fix=true on the same linter vs the Gallina pipeline fed the list "
+         "as supplied, and directly vs the property text; non-trivial = additionally an upper-case letter in the list",
     assumptions=["file and directory names are ASCII without glob metacharacters; no symlinks; all paths lie under the working directory",
                  "ignore patterns use only the documented forms plus negation; '**' only as a whole path component",
                  "Gitignore::matched (one path on its own) of the ignore crate is the reference for a single level; the walk over the parents "
